@@ -165,3 +165,69 @@ Theorem C04_example :
 Proof. exact conflicts_apply_example. Qed.
 Print Assumptions C04_example.
 
+
+(* ---- the same along MULTI-VERSION histories under the identity converter (Proofs/MultiVersion.v,
+   corollaries of the transparency theorem of C20): every operation of the history at its own
+   version label (one schema behind every label, any visiting order of the versions), the
+   last operation at an arbitrary label; updates inside the history submit neither empty
+   lists nor duplicate members (the restriction of Proofs/Transparent.v). ---- *)
+From Coq Require Import List ZArith String Bool Arith Lia Permutation.
+From SMD Require Import Model.Value Model.Order Model.PathElem Model.PathSet Model.Schema Model.Walk
+  Model.Validate Model.FieldSet Model.Remove Model.Merge Model.Compare Model.Matcher Model.Reconcile
+  Model.Updater
+  Spec.PathsAsSets Spec.RefValid Spec.Resolve Spec.Agree Spec.RefDiff Spec.Examples
+  Proofs.OrderLaws Proofs.PathSetLaws Proofs.SchemaOk Proofs.FieldSetBase Proofs.FieldSetPaths
+  Proofs.FieldSetWf Proofs.FieldSetLaws Proofs.RemoveAbsent Proofs.RemoveWf Proofs.ResolveLaws
+  Proofs.UpdaterLaws Proofs.UpdaterLaws2 Proofs.MergeLaws Proofs.MergeAgree
+  Proofs.RemoveFrame Proofs.EnLaws Proofs.NodeSet Proofs.KeyFields Proofs.VeqbResolve
+  Proofs.SetCheckers Proofs.ApplyEffect Proofs.Visible Proofs.ApplyInv Proofs.History
+  Proofs.TransparentPrune Proofs.TransparentCore Proofs.TransparentStep Proofs.Transparent
+  Proofs.Reapply Proofs.ConflictsApply Proofs.NoOtherFailure Proofs.RecordsHistory
+  Proofs.MultiVersionBase.
+From SMD Require Proofs.ApplyPrune.
+From SMD Require Import Proofs.MultiVersion.
+Theorem C04_forced_apply_succeeds_multi_version :
+  forall (c : config) (R : typeref -> Prop) (ver : string) (ops : list vhop)
+           (v mgr : string) (cfg : value),
+         setting_ok c R ver ->
+         one_schema c ver ->
+         order_perm c ->
+         Forall (vop_ok c ver) ops ->
+         op_ok c ver (HApply mgr cfg true) ->
+         exists (o : option tv) (mf' : managed),
+           apply_op c (fst (vrun c ver ops)) (v, cfg) v (snd (vrun c ver ops)) mgr true =
+           UOk (o, mf').
+Proof. exact mv_forced_apply_succeeds. Qed.
+Print Assumptions C04_forced_apply_succeeds_multi_version.
+
+Theorem C04_conflicts_exact_multi_version :
+  forall (c : config) (R : typeref -> Prop) (ver : string) (ops : list vhop)
+           (v mgr : string) (cfg : value) (o : option tv) (mf' : managed),
+         setting_ok c R ver ->
+         one_schema c ver ->
+         order_perm c ->
+         Forall (vop_ok c ver) ops ->
+         op_ok c ver (HApply mgr cfg true) ->
+         let live := snd (fst (vrun c ver ops)) in
+         let mf := snd (vrun c ver ops) in
+         apply_op c (fst (vrun c ver ops)) (v, cfg) v mf mgr true = UOk (o, mf') ->
+         let res := match o with
+                    | Some t => snd t
+                    | None => live
+                    end in
+         let d := ref_diff (schema_of c ver) (tr_of c ver) live res in
+         let hits :=
+           fun (m : string) (p : path) =>
+           m <> mgr /\
+           (exists r : mrec, mf_get m mf = Some r /\ ps_has p (mr_set r) = true) /\
+           (pmem p (rd_modified d) = true \/ pmem p (rd_added d) = true) in
+         apply_op c (fst (vrun c ver ops)) (v, cfg) v mf mgr false = UOk (o, mf') /\
+         (forall (m : string) (p : path), wf_path p = true -> p <> nil -> ~ hits m p) \/
+         (exists cs : list (string * path),
+            apply_op c (fst (vrun c ver ops)) (v, cfg) v mf mgr false = UErr (EConflict cs) /\
+            cs <> nil /\
+            (forall (m : string) (p : path),
+             wf_path p = true -> p <> nil -> conflict_listed cs m p = true <-> hits m p)).
+Proof. exact mv_apply_conflicts_exact. Qed.
+Print Assumptions C04_conflicts_exact_multi_version.
+
